@@ -12,7 +12,7 @@ CASES = [
  ('F3_abort_sibling',    '{"F3"}', 'FALSE', 'Holds(V_C03_CleanEnding)', 1, '{"complete","abort"}'),
  ('KF_nested_review_dup','{}', 'FALSE', 'Holds(V_C08_AtMostOne)', 0, '{"complete"}'),
  ('KF_back_enclosing',   '{}', 'FALSE', 'Holds(V_C03_CleanEnding)', 1, '{"complete","back"}'),
- ('KF_cancel_chain',     '{}', 'FALSE', 'Holds(V_C03_ParentDone)', 1, '{"complete","cancel","skip"}'),
+ ('F22_cancel_chain',    '{"F22"}', 'FALSE', 'Holds(V_C03_ParentDone)', 1, '{"complete","cancel","skip"}'),
 ]
 out=[]
 os.makedirs(V+'/.work/regress',exist_ok=True)
